@@ -24,7 +24,21 @@ def _c03(tier, seed):
     return ps + families.canaries_ord(ps)
 
 
+def _c05(tier, seed):
+    ps = families.c05(tier, seed)
+    return ps + families.canaries_hash(ps)
+
+
 PROPS = {
+    "C05": {
+        "family": _c05,
+        "bounds": {"quick": "structs named/tuple n<=3 all 3^n {none,ignore,method}; enums 1-5 variants over {unit,tuple1,tuple2,named2,named3,tuple3}; field types u8,u16,u32,bool,K(abstract)",
+                   "thorough": "n<=4; +100 sampled enums 3-6 variants"},
+        "trusted": ["assume_specification for <u8|u16|u32|bool|usize|isize as Hash>::hash: one h_push of an uninterpreted hv_T(value) (Verus side)",
+                    "K::hash external_body with uninterpreted hv_k (stand-in for an arbitrary field type; Verus rejects Hash::hash on a type parameter)"],
+        "assumptions": ["variant tag pinned as hv_usize(declaration index) in the Verus contract (taken from the code); the Kani contract is tag-agnostic"],
+        "explanation": "generated Hash::hash verified verbatim for all hashers H against an abstract call trace; Kani: recording hasher, fed data equal iff variant and compared-field data equal",
+    },
     "C03": {
         "family": _c03,
         "bounds": {"quick": "structs named/tuple n<=3 all 3^n {none,ignore,method}; rank permutations n=2,3 x 3 value schemes x 4 spellings; enums 1-3 variants",
